@@ -30,10 +30,11 @@ def plan(tier, seed, kf_ids):
                 for form in ((0, 2) if q else (0, 2, 4)):
                     jobs.append(A.div("c01", s, w, f, form))
         elif w == 32:
-            fr = [16] if q else [0, 1, 16, 31, 32]
+            # signed 32-bit division needs 6-25 min per query: thorough only
+            fr = ([16] if s == "U" else []) if q else [0, 1, 16, 31, 32]
             for f in fr:
                 for form in ((0,) if q else (0, 2, 4)):
-                    jobs.append(A.div("c01", s, w, f, form, timeout=3000))
+                    jobs.append(A.div("c01", s, w, f, form, timeout=1200 if q else 5400))
     # 128-bit kernels on operand families
     for s in ("U", "I"):
         fr = [1, 64, 127, 128] if q else [1, 2, 63, 64, 65, 126, 127, 128]
@@ -49,7 +50,7 @@ def plan(tier, seed, kf_ids):
                       "macros_frac.rs: overflowing_mul, checked_mul, overflowing_div, checked_div; operators * and /"],
         "bounds": "mul: all operand pairs, widths 8..32 at fractional counts {0,1,2,W/2,W-2,W-1,W}+seeded, width 64 at W/2 "
                   "(quick) or {0,1,32,63,64} (thorough); div: width 8 every fractional count incl. wrapped value on overflow, "
-                  "width 16 boundary counts, width 32 at 16 (quick) / {0,1,16,31,32} (thorough); 128-bit mul: operand "
+                  "width 16 boundary counts, width 32: unsigned at 16 (quick) / both signs at {0,1,16,31,32} (thorough); 128-bit mul: operand "
                   "families of 2^16 x 2^16 values (8 symbolic bits at the top/bottom of each 64-bit limb)",
         "outside": ["64-bit and 128-bit division (the SAT back end does not finish on 128-bit / Knuth-D dividers; "
                     "wide_div.rs is not covered by this check)", "128-bit multiplication outside the operand families",
